@@ -687,3 +687,144 @@ Check source_band_padding_independent : forall (A : Arith) (B B' : banded A),
   (forall b, s_band_solve B' b = s_band_solve B b) /\
   (forall v, length v = bn B -> s_band_mul B' v = s_band_mul B v).
 Print Assumptions source_band_padding_independent.
+(* ---- tie of the model to the source of this run (package r2c2): gen/SrcWrapBanded.v is regenerated on every check run from
+   src/banded.rs: the consuming operator forms (each delegates to the by-reference form), empty, size, size_below, size_above, compact;
+   Proofs/SrcEqWrapBanded.v proves each regenerated function equal to its hand-written model. *)
+From OV Require Proofs.SrcEqWrapBanded.
+Theorem model_is_source_C04_WrapBanded : forall A : Arith, @SrcEqWrapBanded.model_is_source_WrapBanded A.
+Proof. intros A. exact SrcEqWrapBanded.model_is_source_WrapBanded_lemma. Qed.
+Check model_is_source_C04_WrapBanded : forall A : Arith, @SrcEqWrapBanded.model_is_source_WrapBanded A.
+Print Assumptions model_is_source_C04_WrapBanded.
+(* ======================================================================================================
+   C04 (banded matrices), rounding half -- package round.  Append to Props/C04.v.
+   The banded matrix-vector product "to rounding accuracy": Model/Banded.v [band_mul]
+   (a) in the STANDARD MODEL of floating-point arithmetic (the same Gallina [band_mul] at ARm): every in-matrix band
+       entry of row i is perturbed relatively by at most gam (row_cnt B i), and row_cnt B i <= m1 + m2 + 1 -- the
+       constant depends on the BANDWIDTH, not on the dimension ([bslot B i k] is the k-th in-matrix slot of row i,
+       [bcol B i k] the index of the vector entry it multiplies);
+   (b) for the PRIMITIVE-FLOAT instance (IEEE binary64) through Flocq: for every finite component whose products do not
+       underflow.
+   NOT covered: band_solve / band_det -- the compact LU with its shifting storage (the backward-error claim of C04 for
+   the solver stays with tie + search); (a) assumes the standard model.
+   ====================================================================================================== *)
+From Coq Require Import Reals Floats Lra Lia.
+From OV Require Import Base.RoundModel Proofs.Banded Proofs.RoundDot Proofs.RoundFlx Proofs.ComplexRound Proofs.RoundDotFloat
+  Proofs.RoundBanded Inst.FloatInst.
+
+Theorem band_mul_backward_error_gamma : forall (u : R), (0 <= u < 1)%R ->
+  forall (fadd fsub fmul fdiv : R -> R -> R),
+  (forall x y : R, exists d : R, (Rabs d <= u)%R /\ fadd x y = ((x + y) * (1 + d))%R) ->
+  (forall x y : R, exists d : R, (Rabs d <= u)%R /\ fmul x y = (x * y * (1 + d))%R) ->
+  (forall a b : R, fadd 0%R (fmul a b) = fmul a b) ->
+  forall (B : banded (ARm fadd fsub fmul fdiv)) (v w : list R),
+  wfB B -> band_mul B v = Ok w ->
+  length w = bn B /\
+  forall i, (i < bn B)%nat -> (INR (row_cnt B i) * u < 1)%R ->
+    exists th : nat -> R,
+      (forall k, (k < row_cnt B i)%nat -> (Rabs (th k) <= gam u (row_cnt B i))%R) /\
+      nth i w 0%R = Rsum (row_cnt B i)
+                      (fun k => (bslot fadd fsub fmul fdiv B i k * (1 + th k) * nth (bcol fadd fsub fmul fdiv B i k) v 0)%R).
+Proof. intros u Hu fadd fsub fmul fdiv Ha Hm H0 B v w. exact (band_mul_backward_error_lemma u Hu fadd fsub fmul fdiv Ha Hm H0 B v w). Qed.
+Check band_mul_backward_error_gamma : forall (u : R), (0 <= u < 1)%R ->
+  forall (fadd fsub fmul fdiv : R -> R -> R),
+  (forall x y : R, exists d : R, (Rabs d <= u)%R /\ fadd x y = ((x + y) * (1 + d))%R) ->
+  (forall x y : R, exists d : R, (Rabs d <= u)%R /\ fmul x y = (x * y * (1 + d))%R) ->
+  (forall a b : R, fadd 0%R (fmul a b) = fmul a b) ->
+  forall (B : banded (ARm fadd fsub fmul fdiv)) (v w : list R),
+  wfB B -> band_mul B v = Ok w ->
+  length w = bn B /\
+  forall i, (i < bn B)%nat -> (INR (row_cnt B i) * u < 1)%R ->
+    exists th : nat -> R,
+      (forall k, (k < row_cnt B i)%nat -> (Rabs (th k) <= gam u (row_cnt B i))%R) /\
+      nth i w 0%R = Rsum (row_cnt B i)
+                      (fun k => (bslot fadd fsub fmul fdiv B i k * (1 + th k) * nth (bcol fadd fsub fmul fdiv B i k) v 0)%R).
+Print Assumptions band_mul_backward_error_gamma.
+(* the tridiagonal 3x3 band (m1 = m2 = 1) filled with 2's, times [1,2,3], in the arithmetic that rounds every operation *)
+Example band_mul_backward_error_gamma_nonvacuous :
+  let B := @band_new AFlx 3 1 1 2%R in
+  (0 <= ux < 1)%R /\
+  (forall x y : R, exists d : R, (Rabs d <= ux)%R /\ xadd x y = ((x + y) * (1 + d))%R) /\
+  (forall x y : R, exists d : R, (Rabs d <= ux)%R /\ xmul x y = (x * y * (1 + d))%R) /\
+  (forall a b : R, xadd 0%R (xmul a b) = xmul a b) /\
+  wfB B /\ (exists w, band_mul B [1%R; 2%R; 3%R] = Ok w) /\
+  (forall i, (i < bn B)%nat -> (INR (row_cnt B i) * ux < 1)%R) /\ row_cnt B 1 = 3%nat.
+Proof.
+  cbn zeta. split; [exact ux_range|]. split; [exact xadd_ok|]. split; [exact xmul_ok|]. split; [exact xadd_0_mul|].
+  split; [apply band_new_wf|]. split; [eexists; reflexivity|]. split; [|reflexivity].
+  intros [|[|[|i]]] Hi; cbn in Hi; try lia; cbn; pose proof ux_small; lra.
+Qed.
+
+Theorem band_mul_forward_error : forall (u : R), (0 <= u < 1)%R ->
+  forall (fadd fsub fmul fdiv : R -> R -> R),
+  (forall x y : R, exists d : R, (Rabs d <= u)%R /\ fadd x y = ((x + y) * (1 + d))%R) ->
+  (forall x y : R, exists d : R, (Rabs d <= u)%R /\ fmul x y = (x * y * (1 + d))%R) ->
+  (forall a b : R, fadd 0%R (fmul a b) = fmul a b) ->
+  forall (B : banded (ARm fadd fsub fmul fdiv)) (v w : list R),
+  wfB B -> band_mul B v = Ok w ->
+  forall i, (i < bn B)%nat -> (INR (row_cnt B i) * u < 1)%R ->
+    (Rabs (nth i w 0 - Rsum (row_cnt B i)
+                         (fun k => bslot fadd fsub fmul fdiv B i k * nth (bcol fadd fsub fmul fdiv B i k) v 0))
+       <= gam u (row_cnt B i)
+          * Rsum (row_cnt B i)
+              (fun k => Rabs (bslot fadd fsub fmul fdiv B i k) * Rabs (nth (bcol fadd fsub fmul fdiv B i k) v 0)))%R.
+Proof. intros u Hu fadd fsub fmul fdiv Ha Hm H0 B v w. exact (band_mul_forward_error_lemma u Hu fadd fsub fmul fdiv Ha Hm H0 B v w). Qed.
+Check band_mul_forward_error : forall (u : R), (0 <= u < 1)%R ->
+  forall (fadd fsub fmul fdiv : R -> R -> R),
+  (forall x y : R, exists d : R, (Rabs d <= u)%R /\ fadd x y = ((x + y) * (1 + d))%R) ->
+  (forall x y : R, exists d : R, (Rabs d <= u)%R /\ fmul x y = (x * y * (1 + d))%R) ->
+  (forall a b : R, fadd 0%R (fmul a b) = fmul a b) ->
+  forall (B : banded (ARm fadd fsub fmul fdiv)) (v w : list R),
+  wfB B -> band_mul B v = Ok w ->
+  forall i, (i < bn B)%nat -> (INR (row_cnt B i) * u < 1)%R ->
+    (Rabs (nth i w 0 - Rsum (row_cnt B i)
+                         (fun k => bslot fadd fsub fmul fdiv B i k * nth (bcol fadd fsub fmul fdiv B i k) v 0))
+       <= gam u (row_cnt B i)
+          * Rsum (row_cnt B i)
+              (fun k => Rabs (bslot fadd fsub fmul fdiv B i k) * Rabs (nth (bcol fadd fsub fmul fdiv B i k) v 0)))%R.
+Print Assumptions band_mul_forward_error.
+Example band_mul_forward_error_nonvacuous :   (* same instance *)
+  let B := @band_new AFlx 3 1 1 2%R in
+  (0 <= ux < 1)%R /\ wfB B /\ (exists w, band_mul B [1%R; 2%R; 3%R] = Ok w) /\
+  (forall i, (i < bn B)%nat -> (INR (row_cnt B i) * ux < 1)%R).
+Proof.
+  cbn zeta. split; [exact ux_range|]. split; [apply band_new_wf|]. split; [eexists; reflexivity|].
+  intros [|[|[|i]]] Hi; cbn in Hi; try lia; cbn; pose proof ux_small; lra.
+Qed.
+
+Theorem band_mul_backward_error_float : forall (B : banded AF) (v w : list PrimFloat.float),
+  wfB B -> band_mul (A := AF) B v = Ok w ->
+  length w = bn B /\
+  forall i, (i < bn B)%nat -> ffinite (nth i w 0%float) ->
+    (forall k, (k < row_cnt B i)%nat -> no_underflow (fbslot B i k * FR (nth (fbcol B i k) v 0%float))%R) ->
+    (INR (row_cnt B i) * u64 < 1)%R ->
+    exists th : nat -> R,
+      (forall k, (k < row_cnt B i)%nat -> (Rabs (th k) <= g64 (row_cnt B i))%R) /\
+      FR (nth i w 0%float) = Rsum (row_cnt B i)
+                               (fun k => (fbslot B i k * (1 + th k) * FR (nth (fbcol B i k) v 0%float))%R).
+Proof. exact band_mul_backward_error_float_lemma. Qed.
+Check band_mul_backward_error_float : forall (B : banded AF) (v w : list PrimFloat.float),
+  wfB B -> band_mul (A := AF) B v = Ok w ->
+  length w = bn B /\
+  forall i, (i < bn B)%nat -> ffinite (nth i w 0%float) ->
+    (forall k, (k < row_cnt B i)%nat -> no_underflow (fbslot B i k * FR (nth (fbcol B i k) v 0%float))%R) ->
+    (INR (row_cnt B i) * u64 < 1)%R ->
+    exists th : nat -> R,
+      (forall k, (k < row_cnt B i)%nat -> (Rabs (th k) <= g64 (row_cnt B i))%R) /\
+      FR (nth i w 0%float) = Rsum (row_cnt B i)
+                               (fun k => (fbslot B i k * (1 + th k) * FR (nth (fbcol B i k) v 0%float))%R).
+Print Assumptions band_mul_backward_error_float.
+(* the tridiagonal 3x3 band filled with 1.5, times [3,4,3] in binary64: row 1 accumulates three products *)
+Example band_mul_backward_error_float_nonvacuous :
+  let B := @band_new AF 3 1 1 1.5%float in let v := [3%float; 4%float; 3%float] in
+  wfB B /\ exists w, band_mul (A := AF) B v = Ok w /\ ffinite (nth 1 w 0%float) /\
+    (forall k, (k < row_cnt B 1)%nat -> no_underflow (fbslot B 1 k * FR (nth (fbcol B 1 k) v 0%float))%R) /\
+    (INR (row_cnt B 1) * u64 < 1)%R.
+Proof.
+  cbn zeta. split; [apply band_new_wf|]. eexists. split; [vm_compute; reflexivity|].
+  split; [apply ffinite_SF; reflexivity|].
+  assert (E15 : FR 1.5%float = 1.5%R) by fr_eval. assert (E3 : FR 3%float = 3%R) by fr_eval.
+  assert (E4 : FR 4%float = 4%R) by fr_eval.
+  split; [|cbn; pose proof u64_small; lra].
+  intros [|[|[|k]]] Hk; cbn in Hk; try lia; unfold fbslot, fbcol, cslot; cbn -[FR]; rewrite ?E15, ?E3, ?E4;
+    apply no_underflow_ge1; rewrite Rabs_pos_eq; lra.
+Qed.
